@@ -23,7 +23,13 @@ In every family the clauses "constant images and infinite thresholds come back u
 bit for bit wherever the Lean condition `mustBeUnchanged` holds.  pewlib does not meet that for the mean
 filter on constant images whose window sums are inexact in the computing format: `known()` recognises
 exactly that signature (known finding C13-constant-image-rounding; bound and exactness test from the
-driver op `c13.constinfo`, theorems `rounded_mean_of_constant_within_bound` / `_exact`)."""
+driver op `c13.constinfo`, theorems `rounded_mean_of_constant_within_bound` / `_exact`).
+
+Further classes on top of the float stream machinery: `hdr` (spikes 1e8 .. 1e150 times the background; a replaced value is
+demanded to the rounding of the magnitude of the NEIGHBOURS that are averaged, Lean's `rabs` / `replBound`), `ints` (every
+integer dtype), `tie` (pixels exactly on the decision boundary where Lean's `meanDecisionExact` certifies that a float
+evaluation is exact), big-endian storage, and `history` cases (`steps`): several calls in one process on the same array
+object edited in place, on another array, on a view - each call judged like a single one (`evaluate_call`)."""
 import json
 import math
 import os
@@ -106,7 +112,15 @@ def fbits(v):
 
 KNOWN_CONST = "C13-constant-image-rounding"
 FLOAT_DTYPES = {"float64": (53, -1074), "float32": (24, -149)}
-INT_DTYPES = ("int64", "int32", "uint8", "uint16")
+INT_DTYPES = ("int64", "int32", "uint8", "uint16", "uint32", "uint64", "int8", "int16")
+INT_CAP = 2 ** 46  # |pixel| of an integer image: every window sum (up to 127 values) is below 2^53, exact in binary64
+
+
+def int_range(dtype, cap=INT_CAP):
+    """the values an integer image of this dtype is drawn from: the dtype's range, cut at +-cap"""
+    ii = np.iinfo(dtype)
+    return max(int(ii.min), -cap), min(int(ii.max), cap)
+BYTEORDERS = ["native"] * 7 + ["big"]  # one case in eight is stored in the non-native byte order
 MAX_ABS = 1e300  # |x| above ~9e307 overflows (a + b) in np.median of two pad values; squares of rounding noise may be inf
 
 
@@ -130,6 +144,9 @@ def build(case):
     dtype = np.dtype(case.get("dtype", "float64"))
     arr = np.array(case_values(case), dtype=np.float64).reshape(case["shape"]).astype(dtype)
     vals = [Fraction(int(v)) if dtype.kind in "iu" else Fraction(float(v)) for v in arr.ravel()]
+    if case.get("byteorder") == "big":  # the same values, stored most significant byte first (non-native here)
+        dtype = dtype.newbyteorder(">")
+        arr = arr.astype(dtype)
     lay = case["layout"]
     base = None
     if lay == "F":
@@ -174,10 +191,12 @@ class FloatTol:
     a fourth for the float32 constant.  A pad value (mean of the two middle values of an even count) carries one
     rounding per axis; order statistics move by at most the largest perturbation."""
 
-    def __init__(self, p, block, scale, t, t_used, int_data=False):
-        self.int_data = int_data  # integer pixels: every window sum is exact in binary64
+    def __init__(self, p, block, t, t_used, int_data=False, is_int=False):
+        self.int_data = int_data  # integer pixels with N*max|x| < 2^53: every window sum is exact in binary64
+        # median filter: a pad value is exact when it is a selection (odd half-window) or rounded to an integer (np.pad
+        # rounds the pad values of an integer image: the mechanism model does the same)
+        self.pads_exact = bool(is_int) or all((b // 2) % 2 == 1 for b in block)
         self.u = Fraction(1, 2 ** p)
-        self.A = Fraction(scale)
         self.N = int(np.prod(block))
         self.P = sum(b // 2 for b in block) + 2
         self.t = None if math.isinf(t) else Fraction(t)
@@ -188,36 +207,80 @@ class FloatTol:
         self.tiny_sd = Fraction(1, 2 ** 537) if p == 53 else Fraction(1, 2 ** 74)
         self.tiny = Fraction(1, 2 ** 1070) if p == 53 else Fraction(1, 2 ** 146)
 
-    def repl_tol(self, kind, real):
-        if kind == "mean":
-            return 2 * (self.N + self.P + 2) * self.u * self.A
-        return Fraction(0) if real else 8 * self.u * self.A
+    @staticmethod
+    def local_maxabs(arr, halves, reach):
+        """per pixel (row-major list of Fractions): the largest |value| among the real pixels within `reach`
+        half-windows of it - every number the decision about that pixel is computed from is a statistic of those"""
+        a = np.abs(np.asarray(arr, dtype=np.float64))
+        out = a.copy()
+        for ax, h in enumerate(halves):
+            r, n = reach * h, a.shape[ax]
+            cur = out.copy()
+            for sft in range(1, min(r, n - 1) + 1):
+                lo = [slice(None)] * a.ndim
+                hi = [slice(None)] * a.ndim
+                lo[ax], hi[ax] = slice(0, n - sft), slice(sft, n)
+                cur[tuple(lo)] = np.maximum(cur[tuple(lo)], out[tuple(hi)])
+                cur[tuple(hi)] = np.maximum(cur[tuple(hi)], out[tuple(lo)])
+            out = cur
+        return [Fraction(float(v)) for v in out.ravel()]
 
-    def margin(self, kind, cell, real):
-        """-> 'out' | 'in' | 'near' from the exact lhs/rhs of the cell"""
+    def repl_tol(self, kind, real, rabs, A, corner=True):
+        """how far a replaced value may be from the exact replacement.  Mean filter: Lean's `replBound u E rabs`
+        (theorems rounded_window_within_bound / rounded_mean_any_order): E = N + 2 roundings (N + P + 2 when the
+        window holds pad values, themselves rounded means), rabs = the mean magnitude of the values that are
+        averaged (the driver's `rabs`: the same replacement computed on the image of absolute values) - NOT the
+        magnitude of the pixel that is replaced and not the largest value of the image; plus one unit of the
+        smallest subnormal for the division.  Median filter: a selection, exact on real windows and on windows whose
+        pad values are exact (`pads_exact`); otherwise a pad value is the mean of the two middle values of an edge
+        chunk, one rounding RELATIVE to itself, and x -> x(1 +- 4u) is increasing, so the median of the window moves
+        by at most 4u relative to itself (rabs = |median|); only in the corner regions of a 2-D image, where the two
+        middle values may be pad values of opposite sign that cancel, the bound is relative to A (largest
+        magnitude within reach)."""
+        if kind == "mean":
+            return 2 * (self.N + (0 if real else self.P) + 2) * self.u * (A if rabs is None else rabs) + self.tiny
+        if real or self.pads_exact:
+            return Fraction(0)
+        return 8 * self.u * A if corner or rabs is None else 4 * self.u * rabs
+
+    def margin(self, kind, cell, real, A, corner=True, mmax=None):
+        """-> 'out' | 'in' | 'near' from the exact lhs/rhs of the cell; A >= every |value| the decision of this
+        pixel can see (its window; for the median filter the windows of its window's pixels); median filter on a
+        window with pad values: `corner` = the pixel is within reach of a corner region of a 2-D image, `mmax` >= the
+        |window median| of every pixel of its window"""
         if cell["rhs"] is None:
             return "in"  # infinite threshold: inf*s is inf or NaN, the comparison is false
         if self.inf_used:
             return "near"
         lhs, rhs = unrat(cell["lhs"]), unrat(cell["rhs"])
-        u, A, t = self.u, self.A, self.t
+        u, t = self.u, self.t
         if kind == "mean":
-            if self.int_data and real and lhs == 0:
-                return "in"  # the window mean is the integer x itself, computed exactly: |x - m| is 0 in floats too
+            if self.int_data and lhs == 0:
+                # the window (pad values of an integer image are integers too) sums exactly to N*x: |x - m| is 0 in floats too
+                return "in"
+            if lhs == 0 and rhs == 0 and A == 0:
+                return "in"  # a window of zeros: every sum is exactly 0
             d_lo, d_hi = sqrt_bounds(lhs)
             r_lo, r_hi = sqrt_bounds(rhs)
             n = self.N + (0 if real else self.P)
             e = 2 * ((n + 4) * u * A * (1 + t) + (Fraction(n, 2) + 4) * u * r_hi + t * self.tiny_sd)
         else:
-            if real and (lhs == 0 or rhs == 0) and not self.t_zeroed:
+            exact_med = real or self.pads_exact  # every window median is a selection of exactly known values
+            if exact_med and (lhs == 0 or rhs == 0) and not self.t_zeroed:
                 # x - med is exact when it is 0, a float difference is 0 only then, rounding keeps the order of the
                 # deviations (their median is 0 exactly when the exact one is) and 0 times anything finite is 0
                 return "out" if lhs > 0 else "in"
             d_lo = d_hi = lhs
             r_lo = r_hi = rhs
             e = 2 * (u * d_hi + 6 * u * r_hi + (1 + t) * self.tiny)
-            if not real:
-                e += 2 * (4 + 16 * t) * u * A
+            if not exact_med:
+                if corner or mmax is None:
+                    e += 2 * (4 + 16 * t) * u * A
+                else:
+                    # medians within 4u of themselves (see repl_tol): |x - med| moves by 5u|med|; the deviations of the
+                    # window's pixels by u*dev + 5u*mmax each, an increasing map, so their median (and its pad values,
+                    # relative roundings of non-negative numbers) by 3u*mad + 5.1u*mmax; times 1.4826 t
+                    e += 2 * (5 * u * abs(unrat(cell["repl"])) + 8 * t * u * mmax + 3 * u * r_hi)
         e += 2 * self.t_rel * r_hi
         if self.t_zeroed:
             e += r_hi
@@ -232,40 +295,69 @@ class C13(Prop):
     id = "C13"
     anchored = ["src/pewlib/process/filters.py", "src/pewlib/process/calc.py"]
     cases = {"quick": 380, "thorough": 8000}
-    rule = ("60%: 1-D (n = b..60) and 2-D (sides b..26) dyadic images: noise, ramps, plateaus, two-valued ties, constants, with isolated "
-            "spikes, spike clusters and constant regions; odd windows 3..9 per axis (equal or not, int or tuple), thresholds 0, "
-            "finite, inf; C/F/strided layouts, read-only or writeable; offsets 0/1000/2^20. 16%: float stream `fconst` - constant "
-            "images of non-dyadic doubles (k/3, k/10, k/1000, pi-like, large offsets, 1e-300..1e300, random) and of dyadic ones "
-            "(few bits: window sums exact; many bits: not), windows 3..13 (1-D) / 3..9 per axis (2-D), thresholds 0, 5e-324, 1e-300, "
-            "1e-16, ..., 1, 3, 1e6, 1e300, inf, both filters, dtypes float64 / float32 / integer, C/F/strided/reversed, read-only: the "
-            "input is demanded back bit for bit. 24%: float stream `fgen` - arbitrary doubles (Gaussian, uniform, log-normal, plateaus, "
-            "two-valued, ramps with noise; magnitudes 1e-120..1e120; spikes, clusters, constant regions), float32 and integer "
-            "dtypes: a pixel is undetermined only when its exact margin |x-centre| - t*spread (rationals from the driver) is within "
-            "the rounding bound of FloatTol (about (N+4)*2^-53*max|x|*(1+t)), otherwise its value is demanded; replaced values to "
-            "2(N+P+2)*2^-53*max|x| (mean) or exactly (median, real windows). non-trivial = at least one interior pixel is replaced, or a "
-            "border pixel is replaced, or the image is constant, or the threshold is 0/inf; distinct by canonical case hash. "
+    rule = ("32%: 1-D (n = b..60) and 2-D (sides b..max(26, 2b+3)) dyadic images: noise, ramps, plateaus, two-valued ties, constants, with "
+            "isolated spikes, spike clusters and constant regions; odd windows 3..15 (1-D) / 3..15 per axis with area < 64 (2-D; equal "
+            "or not, int or tuple), thresholds 0, finite, inf; C/F/strided layouts, read-only or writeable; offsets 0/1000/2^20. "
+            "16%: float stream `fconst` - constant images of non-dyadic doubles (k/3, k/10, k/1000, pi-like, large offsets, "
+            "1e-300..1e300, random) and of dyadic ones (few bits: window sums exact; many bits: not), windows 3..13 (1-D) / 3..9 per "
+            "axis (2-D), thresholds 0, 5e-324, 1e-300, 1e-16, ..., 1, 3, 1e6, 1e300, inf, both filters, dtypes float64 / float32 / integer, "
+            "C/F/strided/reversed, read-only: the input is demanded back bit for bit. 22%: float stream `fgen` - arbitrary doubles "
+            "(Gaussian, uniform, log-normal, plateaus, two-valued, ramps with noise; magnitudes 1e-120..1e120; spikes, clusters, "
+            "constant regions), float32 and integer dtypes: a pixel is undetermined only when its exact margin |x-centre| - t*spread "
+            "(rationals from the driver) is within the rounding bound of FloatTol, computed from the magnitudes the pixel's own window "
+            "holds (about (N+4)*2^-53*max|window|*(1+t)), otherwise its value is demanded; replaced values to Lean's replBound = "
+            "2(N+2)*2^-53*rabs, rabs = the mean MAGNITUDE OF THE NEIGHBOURS that are averaged (driver: the mean filter on the image of "
+            "absolute values), never the magnitude of the replaced pixel or of the image (mean), or exactly (median, windows without "
+            "rounded pad values). 10%: `hdr` - the float stream with isolated spikes and spike clusters 1e8..1e18 (15%: ..1e60, 15%: up "
+            "to |x| = 1e150) times the background (levels 1e-140..1e50; level+noise, zero-mean noise, log-normal, ramp, flat, zeros), both "
+            "signs, a quarter of the spikes on the border, 1-D and 2-D, both filters, float64 / float32 (|x| <= 1e18) / int64 / int32. "
+            "8%: `ints` - every integer dtype (uint8/16/32/64, int8/16/32/64), values low in the dtype's range (pixels below their "
+            "window's median / mean), high in it, over the whole range (|x| <= 2^46), counts with ties, signed; spikes to the ends of "
+            "the range: decisions and replacements evaluated exactly on the integer values. 7%: `history` - 2-3 calls in one process: "
+            "the same array object again after in-place edits (pixels set, region overwritten, whole buffer shifted, another frame "
+            "copied in) with the same / another threshold, block, filter; another array of the same shape in between; a view of the "
+            "previous array; every call judged against the Lean specification of the contents at the time of the call. 5%: `tie` - "
+            "mean filter, a planted window whose statistics are all exactly representable and whose centre is exactly on the decision "
+            "boundary |x-m| = t*s (kept: 'more than'), or one step inside / outside; Lean's meanDecisionExact certifies per pixel that "
+            "every float evaluation takes the exact decision (such pixels are demanded in every stream). One case in eight (all "
+            "streams but the large class) is stored big-endian. non-trivial = at least one interior pixel is replaced, or a border "
+            "pixel is replaced, or the image is constant, or the threshold is 0/inf, or a pixel is exactly on the boundary; distinct by "
+            "canonical case hash. "
             "Large class (targeted, data drawn from VERIF_SEED): 2-D images above 2^16 (quick and thorough) and above 2^17 "
             "(thorough) elements, 1-D signals above 2^16 / 2^17 samples, both filters, windows 3..7, integer noise / gradient / "
             "steps / banded-amplitude data (bell-shaped or uniform noise) with many spikes, thresholds 1.2..3 (many pixels a few units from the "
             "threshold, none within the float tolerance by construction of the data); 2 per quick run, 9 per thorough run; "
             "mechanism model compared at every pixel (left out for the second quick case and the 1-D 2^17 case); specification at "
             "every pixel where mechanism and implementation differ, every changed pixel (capped), a random sample and full "
-            "rows/columns/segments (see module docstring)")
+            "rows/columns/segments (see module docstring). Targeted: the repo's own examples, single windows, the kernel-evaluated "
+            "witnesses, 14 high-dynamic-range inputs (3e17 / 2.5e13 / 1e17 glitches on a background near 1, -1e150 on zeros, 1e-83 on "
+            "1e-100), 4 histories")
     trusted = ["np.pad(mode='mean'|'median', stat_length), np.mean/np.std(where=), np.median, np.where, as_strided as documented; "
                "dyadic streams: float evaluation of |x-m| > t*s is within 1e-9 relative (+1e-12*max|x|*(1+t) absolute) of the exact "
                "value: pixels whose exact margin is smaller may take either value; replacement values compared at 1e-9 relative",
                "float streams: IEEE arithmetic follows the standard model |fl(a op b) - (a op b)| <= u*|a op b| (u = 2^-53, float32 "
                "2^-24) with correctly rounded sqrt, and NumPy sums a window with at most N-1 rounded additions in some order; the "
-               "bounds of FloatTol (doubled) follow from that; the bound inside which a changed constant image counts as the known "
-               "finding is Lean's constBound (theorem rounded_mean_of_constant_within_bound) with depth h0+h1+b0*b1",
+               "bounds of FloatTol (doubled) follow from that, every quantity in them being a statistic of the pixel's own window "
+               "(for the median filter: of the windows of its window's pixels); the bound on a replaced value is Lean's replBound "
+               "(theorems rounded_window_within_bound, rounded_mean_any_order: any order of summation, pad values included); x -> "
+               "x(1+-4u) is increasing, so the median of a window whose pad values carry one relative rounding moves by at most 4u "
+               "relative to itself; the bound inside which a changed constant image counts as the known finding is Lean's "
+               "constBound (theorem rounded_mean_of_constant_within_bound) with depth h0+h1+b0*b1",
+               "exact decisions: where Lean's meanDecisionExact holds (all partial sums in any order, means, deviations, squares, "
+               "variance, its root and t times it are numbers of the computing format) correctly rounded IEEE operations return "
+               "every intermediate result unchanged, so the float decision is the exact one - demanded also exactly on the boundary",
+               "histories: the harness holds the array objects and edits them in place between the calls; object identity, views "
+               "and in-place edits are harness-level facts (the Lean model is a function of the contents)",
                "the binary64 mechanism Pew.Filters.F64 (NumPy's order of evaluation) is compared with pewlib bit for bit and the "
                "agreement reported as a feature (f64-mechanism:bit-equal); it is not part of the verdict - the property fixes no order"]
     assumptions = ["odd windows; image at least one window per axis; no NaN; |x| <= 1e300 in constant images and <= 1e150 otherwise "
-                   "(no overflow of a window sum, of the sum of two pad values in np.median, or of a squared deviation)",
+                   "(float32 high-dynamic-range images: <= 1e18; no overflow of a window sum, of the sum of two pad values in "
+                   "np.median, or of a squared deviation)",
                    "dyadic streams: float64 images with dyadic values (window sums are exact)",
                    "float32 images: thresholds representable in float32 (NumPy converts the Python float to the array dtype); "
                    "other thresholds are tolerated through the bound, not demanded",
-                   "integer images: np.pad rounds the pad values (half to even) to the integer dtype; the mechanism model does the "
+                   "integer images: |pixel| <= 2^46 (every window sum is exact in binary64 and every pixel converts exactly to "
+                   "float64); np.pad rounds the pad values (half to even) to the integer dtype; the mechanism model does the "
                    "same (pad statistic rint o mean / rint o median, theorems interior_any_pad_*)"]
 
     # ------------------------------------------------------------------ generation
@@ -400,18 +492,31 @@ class C13(Prop):
         r = rng.random()
         if r < 0.16:
             return self.gen_fconst(rng)
-        if r < 0.40:
+        if r < 0.38:
             return self.gen_fgen(rng)
+        if r < 0.48:
+            return self.gen_hdr(rng)
+        if r < 0.56:
+            return self.gen_ints(rng)
+        if r < 0.63:
+            return self.gen_history(rng)
+        if r < 0.68:
+            return self.gen_tie(rng)
         ndim = rng.choice([1, 2, 2])
         kind = rng.choice(["mean", "median"])
-        if rng.random() < 0.5:
-            b = rng.choice([3, 3, 5, 5, 7, 9])
-            block = [b] * ndim
+        if ndim == 1:
+            block = [rng.choice([3, 3, 5, 5, 7, 9, 11, 13, 15])]
         else:
-            block = [rng.choice([3, 5, 7, 9]) for _ in range(ndim)]
+            while True:  # windows up to 15 along one axis; the area is kept below 64 (cost of the exact 2-D median specification)
+                if rng.random() < 0.5:
+                    block = [rng.choice([3, 3, 5, 5, 7])] * 2
+                else:
+                    block = [rng.choice([3, 5, 7, 9, 11, 13, 15]) for _ in range(2)]
+                if block[0] * block[1] < 64:
+                    break
         shape = []
         for b in block:
-            hi = 60 if ndim == 1 else 26
+            hi = 60 if ndim == 1 else max(26, 2 * b + 3)
             r = rng.random()
             if r < 0.12:
                 s = b  # exactly one window
@@ -432,7 +537,7 @@ class C13(Prop):
                 "offset": rng.choice([0, 0, 0, 1000, 2 ** 20]), "block": block,
                 "block_int": len(set(block)) == 1 and rng.random() < 0.5,
                 "threshold": thr, "layout": rng.choice(["C", "C", "F", "strided"]), "gen": feats,
-                "readonly": rng.random() < 0.25}
+                "readonly": rng.random() < 0.25, "byteorder": rng.choice(BYTEORDERS)}
 
     # ------------------------------------------------------------------ float streams
     F32_THR = ["0", "0", 2.0 ** -20, 0.25, 0.5, 0.75, 1.0, 1.5, 2.0, 2.5, 3.0, 3.0, 5.0, 10.0, 2.0 ** 20, "inf", "inf"]
@@ -452,6 +557,13 @@ class C13(Prop):
             else:
                 shape.append(rng.randint(min(hi, 2 * b + 1), max(hi, 2 * b + 3)))
         return block, shape
+
+    @staticmethod
+    def with_interior(rng, shape, block, prob=0.8):
+        """with probability `prob`: every axis long enough for pixels a full window from both borders"""
+        if rng.random() < prob:
+            return [max(s_, 2 * b + 1 + rng.randint(0, 3)) for s_, b in zip(shape, block)]
+        return shape
 
     def gen_const_value(self, rng):
         cls = rng.choice(["third", "tenth", "milli", "pi-like", "offset", "tiny", "underflow-sq", "small", "huge", "random", "random",
@@ -494,7 +606,8 @@ class C13(Prop):
         dtype = self.gen_dtype(rng)
         c, cls = self.gen_const_value(rng)
         if dtype in INT_DTYPES:
-            c, cls = float(rng.randint(0, 255) if dtype.startswith("u") else rng.randint(-1000, 1000)), "integer"
+            lo_i, hi_i = int_range(dtype, 1000)
+            c, cls = float(rng.randint(max(lo_i, -1000), min(hi_i, 255 if dtype.startswith("u") else 1000))), "integer"
         elif dtype == "float32":
             c = float(np.float32(c)) if abs(c) < 1e38 else float(np.float32(math.copysign(1e30, c) * (0.1 + rng.random())))
         if dtype == "float32":
@@ -506,7 +619,7 @@ class C13(Prop):
                 "block_int": len(set(block)) == 1 and rng.random() < 0.5,
                 "threshold": thr if isinstance(thr, str) and thr == "inf" else hexf(float(thr)), "dtype": dtype,
                 "layout": rng.choice(["C", "C", "F", "strided", "reversed"]), "readonly": rng.random() < 0.3,
-                "gen": ["const:" + cls]}
+                "byteorder": rng.choice(BYTEORDERS), "gen": ["const:" + cls]}
 
     def gen_fgen(self, rng):
         ndim = rng.choice([1, 2, 2])
@@ -561,9 +674,9 @@ class C13(Prop):
             a[sl] = rng.uniform(-3, 3)
             feats.append("constant-region")
         if dtype in INT_DTYPES:
+            lo_i, hi_i = int_range(dtype, 30000)
             a = np.rint(a * rng.choice([1, 10, 100]) / max(1.0, float(np.max(np.abs(a))) / 100))
-            a = np.clip(a + (100 if dtype.startswith("u") else 0), 0 if dtype.startswith("u") else -30000,
-                        255 if dtype == "uint8" else 30000)
+            a = np.clip(a + (100 if dtype.startswith("u") else 0), lo_i, hi_i)
         elif dtype == "float32":
             a = a * rng.choice([1.0, 1.0, 1e-3, 1e3])
         else:
@@ -577,7 +690,333 @@ class C13(Prop):
         return {"stream": "fgen", "kind": kind, "shape": shape, "fdata": [hexf(v) for v in a.ravel()], "block": block,
                 "block_int": len(set(block)) == 1 and rng.random() < 0.5,
                 "threshold": thr if isinstance(thr, str) and thr == "inf" else hexf(float(thr)), "dtype": dtype,
-                "layout": rng.choice(["C", "C", "F", "strided", "reversed"]), "readonly": rng.random() < 0.3, "gen": feats}
+                "layout": rng.choice(["C", "C", "F", "strided", "reversed"]), "readonly": rng.random() < 0.3, "gen": feats,
+                "byteorder": rng.choice(BYTEORDERS)}
+
+    # ------------------------------------------------------------------ float stream, high dynamic range
+    def gen_hdr(self, rng):
+        """isolated spikes and spike clusters 1e8 .. 1e18 (a fifth: up to 1e150) times the background they sit
+        on, both signs, anywhere (a quarter forced onto the border), 1-D and 2-D, both filters.  The replacement
+        of such a pixel is a statistic of its neighbours and is demanded to the rounding of THEIR magnitude."""
+        ndim = rng.choice([1, 2, 2])
+        kind = rng.choice(["mean", "mean", "median"])
+        block, shape = self.gen_geometry(rng, ndim, [3, 3, 5, 5, 7, 9, 11] if ndim == 1 else [3, 3, 5, 7], 40 if ndim == 1 else 15)
+        shape = self.with_interior(rng, shape, block)
+        dtype = rng.choice(["float64"] * 6 + ["float32"] * 2 + ["int64", "int32"])
+        n = int(np.prod(shape))
+        idx = np.indices(shape)
+        if dtype == "float64":
+            bexp, cap = rng.choice([0, 0, 0, -3, 3, -30, 30, -100, 50, -140]), 150
+        elif dtype == "float32":
+            bexp, cap = rng.choice([0, 0, -3, -10]), 18  # squares of |x| <= 1e18 summed over a window stay finite in binary32
+        else:
+            bexp, cap = 0, (13 if dtype == "int64" else 9)  # window sums stay below 2^53 (int32: below 2^31 per pixel)
+        level = 10.0 ** bexp
+        style = rng.choice(["level", "level", "noise", "lognormal", "ramp", "flat", "zeros"])
+        if dtype in INT_DTYPES:
+            a = np.array([rng.randint(0, 40) for _ in range(n)], dtype=np.float64) if style not in ("flat", "zeros") else \
+                np.full(n, 0.0 if style == "zeros" else float(rng.randint(1, 40)))
+        elif style == "level":
+            a = np.array([level * (1 + 0.1 * rng.gauss(0, 1)) for _ in range(n)])
+        elif style == "noise":
+            a = np.array([level * rng.gauss(0, 1) for _ in range(n)])
+        elif style == "lognormal":
+            a = np.array([level * rng.lognormvariate(0.0, 0.5) for _ in range(n)])
+        elif style == "ramp":
+            a = level * (1 + sum(rng.uniform(-0.05, 0.05) * idx[k] for k in range(ndim)).ravel()
+                         + np.array([rng.gauss(0, 0.02) for _ in range(n)]))
+        elif style == "flat":
+            a = np.full(n, level * rng.choice([1.0, 1 / 3, 0.7, 1.25]))
+        else:
+            a = np.zeros(n)
+        a = np.array(a, dtype=np.float64).reshape(shape)
+        feats = ["hdr", "hdr-bg:" + style]
+        unit = level
+
+        def spike():
+            r = rng.random()
+            lo = 8
+            if r < 0.7 or cap <= 18:
+                k = rng.uniform(lo, min(18, cap - bexp))
+                cls = "1e8..1e18"
+            elif r < 0.85:
+                k = rng.uniform(18, min(60, cap - bexp))
+                cls = "1e18..1e60"
+            else:
+                k = rng.uniform(min(60, cap - bexp - 1), cap - bexp - 0.5)
+                cls = "to-1e150"
+            v = rng.choice([-1.0, 1.0]) * unit * 10.0 ** k * (0.5 + 0.5 * rng.random())
+            lim = 10.0 ** cap
+            return max(-lim, min(lim, v)), cls
+
+        def place(border):
+            q = []
+            for s_, b in zip(shape, block):
+                if border or s_ <= 2 * b:
+                    q.append(rng.choice([0, s_ - 1, rng.randrange(s_)]))
+                else:
+                    q.append(rng.randrange(b, s_ - b))
+            return tuple(q)
+
+        signs = set()
+        for _ in range(rng.randint(1, 4)):  # isolated spikes
+            q = place(rng.random() < 0.25)
+            v, cls = spike()
+            a[q] = v
+            signs.add(v < 0)
+            feats.append("hdr-ratio:" + cls)
+        feats.append("hdr:isolated")
+        if rng.random() < 0.4:  # a cluster of adjacent huge values (their windows contain each other)
+            q = place(False)
+            v, cls = spike()
+            ext = [rng.randint(1, 3) for _ in shape]
+            sl = tuple(slice(c, c + e) for c, e in zip(q, ext))
+            sub = a[sl]
+            a[sl] = np.array([v * rng.choice([1.0, 1.0, -1.0, 0.5, 1e-3]) * (0.5 + rng.random()) for _ in range(sub.size)]).reshape(sub.shape)
+            feats += ["hdr:cluster", "hdr-ratio:" + cls]
+            signs.add(v < 0)
+        feats += ["hdr-sign:" + ("both" if len(signs) == 2 else "neg" if True in signs else "pos")]
+        if dtype in INT_DTYPES:
+            a = np.rint(a)
+            if dtype == "int32":
+                a = np.clip(a, -2.0e9, 2.0e9)
+        if dtype == "float32":
+            thr = rng.choice([0.5, 1.0, 1.5, 2.0, 3.0, 3.0, 5.0, 10.0, "0", 2.0 ** 10])
+        else:
+            thr = rng.choice([0.5, 1.0, 1.5, 2.0, 3.0, 3.0, 5.0, 10.0, "0", 1e3, 0.3, 2.9])
+        return {"stream": "fgen", "kind": kind, "shape": shape, "fdata": [hexf(v) for v in a.ravel()], "block": block,
+                "block_int": len(set(block)) == 1 and rng.random() < 0.5,
+                "threshold": hexf(float(thr)), "dtype": dtype,
+                "layout": rng.choice(["C", "C", "F", "strided", "reversed"]), "readonly": rng.random() < 0.3, "gen": sorted(set(feats)),
+                "byteorder": rng.choice(BYTEORDERS)}
+
+    def hdr_targeted(self):
+        """deterministic high-dynamic-range inputs: a gently varying signal / image with a glitch of 3e17, 2.5e13, 1e17
+        (and an ordinary spike), the window of the kernel-evaluated witness f64_subtracted_mean_cancels, a zero
+        background, a negative glitch on the border"""
+        base = {"stream": "fgen", "block_int": False, "layout": "C", "dtype": "float64", "readonly": False, "gen": ["targeted-float", "hdr"]}
+        sig = [1.2 + 0.1 * math.sin(0.7 * i) + 0.05 * math.cos(1.3 * i) for i in range(60)]
+        sig[17], sig[30], sig[43] = 3.0e17, 7.0, 2.5e13
+        img = [[0.8 + 0.05 * math.sin(0.9 * y) * math.cos(0.6 * x) + 0.01 * ((y * 7 + x * 3) % 5) for x in range(23)] for y in range(19)]
+        img[9][11], img[5][16] = 1.0e17, 40.0
+        flat = [v for r in img for v in r]
+        for kind in ("mean", "median"):
+            for blk, thr in ((5, 3.0), (7, 2.0)):
+                yield {**base, "kind": kind, "shape": [60], "fdata": [hexf(v) for v in sig], "block": [blk], "threshold": hexf(thr)}
+            for blk, thr in (([3, 5], 3.0), ([3, 3], 1.0)):
+                yield {**base, "kind": kind, "shape": [19, 23], "fdata": [hexf(v) for v in flat], "block": blk, "threshold": hexf(thr)}
+            # the window 1, 1.5, 3e17, 1.25, 1 of the witness theorem, at a pixel a full window from either end
+            yield {**base, "kind": kind, "shape": [17], "block": [5], "threshold": hexf(3.0), "gen": ["targeted-float", "hdr", "witness"],
+                   "fdata": [hexf(v) for v in (1.0, 1.25, 1.0, 1.5, 1.25, 1.0, 1.25, 1.0, 1.5, 3.0e17, 1.25, 1.0, 1.5, 1.0, 1.25, 1.0, 1.5)]}
+            z = [0.0] * 49
+            z[24] = -1e150
+            yield {**base, "kind": kind, "shape": [7, 7], "fdata": [hexf(v) for v in z], "block": [3, 3], "threshold": hexf(1.0)}
+            e = [1e-100 * (1 + 0.01 * ((5 * i) % 7)) for i in range(25)]
+            e[0], e[12] = -4e-83, 6e-88
+            yield {**base, "kind": kind, "shape": [25], "fdata": [hexf(v) for v in e], "block": [5], "threshold": hexf(2.0)}
+
+    # ------------------------------------------------------------------ pixels exactly on the decision boundary
+    def gen_tie(self, rng):
+        """mean filter, a window planted in integer noise whose statistics are all exactly representable: the neighbours are
+        half c-g, half c+g (their mean c, their standard deviation g), the pixel is c + N*f (window mean c + f, deviation
+        |f|(N-1)) and the threshold t = |f|(N-1)/g: the pixel is EXACTLY on the boundary and must be kept ('more than');
+        or one step inside / outside it.  Lean's meanDecisionExact confirms per pixel that a float evaluation is exact."""
+        ndim = rng.choice([1, 2, 2])
+        block, shape = self.gen_geometry(rng, ndim, [3, 3, 5, 5, 7, 9, 11] if ndim == 1 else [3, 3, 5, 7], 44 if ndim == 1 else 18)
+        for k in range(ndim):  # room for an interior pixel
+            shape[k] = max(shape[k], 2 * block[k] + 1 + rng.randint(0, 4))
+        nwin = int(np.prod(block))
+        while True:
+            tq = Fraction(rng.choice(["1/2", "3/4", "1", "5/4", "3/2", "2", "5/2", "3", "4", "6", "8", "1/4"]))
+            f = rng.choice([-1, 1]) * rng.randint(1, 6)
+            g = Fraction(abs(f) * (nwin - 1)) / tq
+            if g.denominator == 1 and 1 <= g <= 4000:
+                g = int(g)
+                break
+        c = rng.randint(-50, 50)
+        step = rng.choice(["on", "on", "on", "outside", "inside"])
+        # one unit of N further from / nearer to the window mean: deviation (|f| +- 1)(N-1)
+        f_used = f + (0 if step == "on" else (1 if f > 0 else -1) * (1 if step == "outside" else -1))
+        n = int(np.prod(shape))
+        a = np.array([rng.randint(-30, 30) for _ in range(n)], dtype=np.int64).reshape(shape)
+        centre = tuple(rng.randrange(b, s_ - b) for b, s_ in zip(block, shape))
+        sl = tuple(slice(q - b // 2, q + b // 2 + 1) for q, b in zip(centre, block))
+        half = [c - g] * ((nwin - 1) // 2) + [c + g] * ((nwin - 1) // 2)
+        rng.shuffle(half)
+        win = half[:nwin // 2] + [c + nwin * f_used] + half[nwin // 2:]
+        a[sl] = np.array(win, dtype=np.int64).reshape(block)
+        return {"kind": "mean", "shape": shape, "data": [int(v) for v in a.ravel()], "den": rng.choice([1, 1, 2, 4]),
+                "offset": rng.choice([0, 0, 1000, 2 ** 20]), "block": block,
+                "block_int": len(set(block)) == 1 and rng.random() < 0.5, "threshold": float(tq).hex(),
+                "layout": rng.choice(["C", "C", "F", "strided"]), "gen": ["tie-class", "tie-step:" + step],
+                "readonly": rng.random() < 0.25}
+
+    # ------------------------------------------------------------------ integer images of every dtype
+    def gen_ints(self, rng):
+        """integer images: every unsigned and signed dtype, values low in the dtype's range (a pixel below its window's
+        median or mean: unsigned differences would wrap), high in it (sums beyond the dtype), over the whole range, counts
+        with ties; spikes to the ends of the range.  Pixels stay within +-2^46: all window sums are exact in binary64 and
+        decisions / replacements are evaluated exactly on the integer values."""
+        ndim = rng.choice([1, 2, 2])
+        kind = rng.choice(["mean", "median", "median"])
+        block, shape = self.gen_geometry(rng, ndim, [3, 3, 5, 5, 7, 9], 40 if ndim == 1 else 16)
+        shape = self.with_interior(rng, shape, block)
+        dtype = rng.choice(INT_DTYPES)
+        lo, hi = int_range(dtype)
+        n = int(np.prod(shape))
+        style = rng.choice(["low", "low", "high", "full", "counts", "signed"])
+        if style == "signed" and lo == 0:
+            style = "low"
+        span = hi - lo
+        if style == "low":
+            base = lo if lo == 0 else 0
+            a = [base + rng.randint(0, min(60, span)) for _ in range(n)]
+        elif style == "high":
+            a = [hi - rng.randint(0, min(60, span)) for _ in range(n)]
+        elif style == "full":
+            a = [rng.randint(lo, hi) for _ in range(n)]
+        elif style == "counts":
+            lv = [rng.randint(0, min(9, span)) * rng.choice([1, 1, 3]) for _ in range(8)]
+            a = [max(lo, 0) + rng.choice(lv) for _ in range(n)]
+        else:
+            m = min(100, hi)
+            a = [rng.randint(-m, m) for _ in range(n)]
+        a = np.array(a, dtype=object).reshape(shape)
+        feats = ["ints", "ints:" + style, "ints-dtype:" + dtype]
+        if rng.random() < 0.75:
+            for _ in range(rng.randint(1, 4)):
+                q = tuple(rng.randrange(s_) for s_ in shape)
+                a[q] = rng.choice([lo, hi, hi, (lo + hi) // 2, max(lo, min(hi, int(a[q]) + rng.choice([-1, 1]) * rng.choice([9, 70, 900, 10 ** 6])))])
+            feats.append("spikes")
+        if rng.random() < 0.3:
+            q = [rng.randrange(s_) for s_ in shape]
+            sl = tuple(slice(c, c + rng.randint(1, 3)) for c in q)
+            a[sl] = rng.choice([lo, hi])
+            feats.append("cluster")
+        if rng.random() < 0.25:
+            q = [rng.randrange(s_) for s_ in shape]
+            sl = tuple(slice(c, c + rng.randint(2, 10)) for c in q)
+            a[sl] = rng.randint(lo, min(hi, lo + 50))
+            feats.append("constant-region")
+        thr = rng.choice(["0", 0.5, 1.0, 1.5, 2.0, 3.0, 3.0, 5.0, 10.0, "inf", 0.3, 1.2, 2.5, 1e3])
+        return {"stream": "fgen", "kind": kind, "shape": shape, "fdata": [hexf(float(int(v))) for v in a.ravel()], "block": block,
+                "block_int": len(set(block)) == 1 and rng.random() < 0.5,
+                "threshold": thr if isinstance(thr, str) and thr == "inf" else hexf(float(thr)), "dtype": dtype,
+                "layout": rng.choice(["C", "C", "F", "strided", "reversed"]), "readonly": rng.random() < 0.3, "gen": feats,
+                "byteorder": rng.choice(BYTEORDERS)}
+
+    # ------------------------------------------------------------------ histories
+    def gen_history(self, rng):
+        """2-3 calls in one process (see evaluate_history): the same array object again after in-place edits (new spikes,
+        spikes removed, a region overwritten, the whole buffer shifted, another frame copied in), with the same or another
+        threshold / block / filter; another array of the same shape in between; a view of the previous array"""
+        ndim = rng.choice([1, 2, 2])
+        dtype = rng.choice(["float64"] * 5 + ["float32", "uint16", "int32"])
+        isint = dtype in INT_DTYPES
+        wins = [3, 5, 5, 7] if ndim == 1 else [3, 3, 5]
+        shape = [rng.randint(16, 40)] if ndim == 1 else [rng.randint(11, 16), rng.randint(11, 16)]
+        n = int(np.prod(shape))
+
+        def frame():
+            lvl, sg = rng.choice([1.0, 10.0, 300.0]), rng.choice([0.05, 0.3, 1.0])
+            f = np.array([lvl + sg * rng.gauss(0, 1) for _ in range(n)])
+            if isint:
+                f = np.rint(np.abs(f) * 10)
+            for _ in range(rng.randint(1, 4)):
+                f[rng.randrange(n)] += rng.choice([-1, 1]) * rng.choice([9.0, 40.0, 600.0]) * (10 if isint else sg) * (1 if not isint else 1)
+            if isint:
+                f = np.clip(np.rint(f), 0 if dtype.startswith("u") else -30000, 30000)
+            return f
+
+        def blk():
+            if rng.random() < 0.5:
+                return [rng.choice(wins)] * ndim
+            return [rng.choice(wins) for _ in range(ndim)]
+
+        def thr():
+            t = rng.choice([0.5, 1.0, 1.5, 2.0, 3.0, 3.0, 5.0, "0", "inf"])
+            return t if t == "inf" else hexf(float(t))
+
+        def call(on, kind, block, t, view=None):
+            st = {"op": "call", "on": on, "kind": kind, "block": block, "block_int": len(set(block)) == 1 and rng.random() < 0.4,
+                  "threshold": t}
+            if view is not None:
+                st["view"] = view
+            return st
+
+        def edit(cur):
+            how = rng.choice(["set", "set", "set", "add", "copy-other", "region"])
+            if how == "set":
+                at = []
+                for _ in range(rng.randint(1, 5)):
+                    k = rng.randrange(n)
+                    v = cur[k] + rng.choice([-1, 1]) * rng.choice([30.0, 200.0, 5000.0]) if rng.random() < 0.7 else float(np.median(cur))
+                    if isint:
+                        v = float(min(30000, max(0 if dtype.startswith("u") else -30000, round(v))))
+                    at.append([k, hexf(v)])
+                return {"op": "edit", "how": "set", "at": at}
+            if how == "add":
+                return {"op": "edit", "how": "add", "value": hexf(float(rng.choice([1, 5, 100])) if isint else rng.choice([0.5, 3.25, 100.0]))}
+            if how == "region":
+                box = []
+                for s_ in shape:
+                    lo_ = rng.randrange(s_)
+                    box.append([lo_, min(s_, lo_ + rng.randint(1, 6))])
+                v = float(rng.randint(0, 50)) if isint else rng.choice([0.0, 1.5, 77.0])
+                return {"op": "edit", "how": "region", "box": box, "value": hexf(v)}
+            return {"op": "edit", "how": "copy-other"}
+
+        a, b = frame(), frame()
+        kind = rng.choice(["median", "median", "mean"])
+        b0, t0 = blk(), thr()
+        pat = rng.choice(["edit-same", "edit-same", "edit-same", "edit-thr", "edit-block", "edit-filter", "unedited-thr", "other-between",
+                          "view", "three"])
+        other_kind = "mean" if kind == "median" else "median"
+        steps = [call("A", kind, b0, t0)]
+        if pat == "edit-same":
+            steps += [edit(a), call("A", kind, b0, t0)]
+        elif pat == "edit-thr":
+            steps += [edit(a), call("A", kind, b0, thr())]
+        elif pat == "edit-block":
+            steps += [edit(a), call("A", kind, blk(), t0)]
+        elif pat == "edit-filter":
+            steps += [edit(a), call("A", other_kind, b0, t0)]
+        elif pat == "unedited-thr":
+            steps += [call("A", kind, b0, thr())]
+        elif pat == "other-between":
+            steps += [call("B", kind, b0, t0), edit(a), call("A", kind, b0, t0)]
+        elif pat == "view":
+            view = []
+            for s_, w in zip(shape, b0):
+                opts = [[None, None, None]]
+                if s_ - 1 >= w:
+                    opts += [[1, None, None], [None, -1, None]]
+                if (s_ + 1) // 2 >= w:
+                    opts.append([None, None, 2])
+                opts.append([None, None, -1])
+                view.append(rng.choice(opts))
+            steps += [edit(a), call("view", kind, b0, t0, view)]
+            if rng.random() < 0.5:
+                steps += [call("A", kind, b0, t0)]
+        else:
+            steps += [edit(a), call("A", kind, b0, thr()), edit(a), call("A", rng.choice([kind, other_kind]), rng.choice([b0, blk()]), t0)]
+        return {"steps": steps, "shape": shape, "dtype": dtype, "layout": rng.choice(["C", "C", "C", "F", "strided"]),
+                "fdata": [hexf(float(v)) for v in a], "other": [hexf(float(v)) for v in b], "gen": ["history", "hist-pattern:" + pat],
+                "kind": kind, "block": b0, "byteorder": rng.choice(BYTEORDERS)}
+
+    def history_targeted(self):
+        """deterministic histories for both filters: filter, overwrite spikes in place, filter the same object again"""
+        sig = [1.0 + 0.01 * ((7 * i * i) % 11) for i in range(24)]
+        sig[6], sig[15] = 57.5, 1.04
+        img = [1.0 + 0.01 * ((5 * i * i) % 13) for i in range(81)]
+        img[40] = 30.0
+        for kind in ("median", "mean"):
+            for shape, data, block, at in (([24], sig, [5], [[6, hexf(1.02)], [15, hexf(41.0)]]),
+                                           ([9, 9], img, [3, 3], [[40, hexf(1.05)], [22, hexf(-25.0)], [58, hexf(44.0)]])):
+                c1 = {"op": "call", "on": "A", "kind": kind, "block": block, "block_int": False, "threshold": hexf(3.0)}
+                yield {"steps": [c1, {"op": "edit", "how": "set", "at": at}, c1, {**c1, "threshold": hexf(1.0)}],
+                       "shape": shape, "dtype": "float64", "layout": "C", "fdata": [hexf(v) for v in data],
+                       "other": [hexf(v + 0.5) for v in data], "gen": ["history", "targeted"], "kind": kind, "block": block}
 
     def float_targeted(self):
         base = {"stream": "fconst", "block_int": False, "layout": "C", "dtype": "float64", "readonly": False, "gen": ["targeted-float"]}
@@ -644,15 +1083,25 @@ class C13(Prop):
                        "block": [7], "threshold": thr}
                 yield {**base, "kind": kind, "shape": [6, 6], "data": [3] * 36, "block": [3, 3], "threshold": thr, "block_int": True}
         yield from self.float_targeted()
+        yield from self.hdr_targeted()
+        yield from self.history_targeted()
 
     # ------------------------------------------------------------------ evaluation
     def evaluate(self, case, ctx):
+        if "steps" in case:
+            return self.evaluate_history(case, ctx)
+        return self.evaluate_call(case, ctx)
+
+    def evaluate_call(self, case, ctx, prebuilt=None):
+        """one call of a filter, judged against the Lean specification of the array's contents at the time of the call.
+        `prebuilt` = (vals, x, base): the call is made on this existing array object (history cases) instead of on a
+        freshly built one; `case` then describes its current contents."""
         from pewlib.process import filters
 
         kind, shape, block = case["kind"], case["shape"], case["block"]
         fmode = "stream" in case  # float streams: rounding-bound tolerances instead of the dyadic 1e-9
         dtname = case.get("dtype", "float64")
-        vals, x, base = build(case)
+        vals, x, base = build(case) if prebuilt is None else prebuilt
         t = thr_float(case["threshold"])
         # snapshots at byte level (NaN-/signed-zero-proof), of the view and of the buffer behind it
         snap = (x.tobytes(), None if base is None else base.tobytes(), x.shape, x.strides, x.dtype.str,
@@ -677,8 +1126,12 @@ class C13(Prop):
         sparse = n > SPARSE_ABOVE
         is_int = np.dtype(dtname).kind in "iu"
         # integer image: np.pad rounds the pad values (half to even) to the dtype; the mechanism model does the same
+        # the format pewlib computes in: float32 stays float32, integers are averaged in float64
+        p_bits, emin = FLOAT_DTYPES.get(dtname, FLOAT_DTYPES["float64"])
+        t_used = float(np.float32(t)) if dtname == "float32" else t  # a Python float times a float32 array is float32
         req = dict(kind=kind, shape=shape, data=[core.rat(v) for v in vals], block=block,
-                   threshold=None if math.isinf(t) else core.rat(t), pad="rint" if is_int else "exact")
+                   threshold=None if math.isinf(t) else core.rat(t), pad="rint" if is_int else "exact",
+                   rabs=bool(fmode and kind == "mean"), p=p_bits, emin=emin)
         if sparse:
             changed = []
             if "raises" not in impl and impl["shape"] == shape:
@@ -695,18 +1148,31 @@ class C13(Prop):
         abs_tol = 1e-12 * scale
         halves = [b // 2 for b in block]
         idx = np.indices(shape).reshape(len(shape), -1).T if n else []
-        # the format pewlib computes in: float32 stays float32, integers are averaged in float64
-        p_bits, emin = FLOAT_DTYPES.get(dtname, FLOAT_DTYPES["float64"])
-        t_used = float(np.float32(t)) if dtname == "float32" else t  # a Python float times a float32 array is float32
-        ftol = FloatTol(p_bits, block, max(abs(float(v)) for v in vals), t, t_used, is_int) if fmode else None
+        ftol = a_loc = None
+        if fmode:
+            maxabs = max(abs(v) for v in vals)
+            # integer pixels: window sums are exact only while they stay below 2^53
+            ftol = FloatTol(p_bits, block, t, t_used, is_int and int(np.prod(block)) * maxabs < 2 ** 53, is_int)
+            grid = np.array([float(v) for v in vals], dtype=np.float64).reshape(shape)
+            a_loc = FloatTol.local_maxabs(grid, halves, 2 if kind == "median" else 1)
+        m_loc = None  # median filter: per pixel, a bound on the |window median| of the pixels of its window
         xs = [float(v) for v in np.asarray(x, dtype=np.float64).ravel()]  # the input as floats (keeps the sign of a zero)
 
         def real_window(p, reach=1):  # no padded value within `reach` half-windows of pixel p
             return all(reach * h <= i < s - reach * h for i, h, s in zip(p, halves, shape))
 
+        n_fexact = [0, 0]  # decisions taken exactly by any float evaluation; of those, exactly on the boundary
+
+        def fexact(cell):
+            """Lean's meanDecisionExact: every number a float evaluation of this pixel's decision computes is a number of
+            the computing format - the exact decision is demanded, also exactly on the boundary ('more than')"""
+            return bool(cell.get("fexact")) and t_used == t
+
         def near(cell, p):
             """exact decision margin below the float tolerance -> either value is acceptable"""
             if cell["rhs"] is None:
+                return False
+            if fexact(cell):
                 return False
             lhs, rhs = unrat(cell["lhs"]), unrat(cell["rhs"])
             if lhs == 0 and (kind == "median" or real_window(p) or (rhs == 0 and t != 0)):
@@ -717,13 +1183,21 @@ class C13(Prop):
                 a, b = float(lhs), float(rhs)
             return abs(a - b) <= REL * max(a, b) + abs_tol * (1.0 + (0.0 if math.isinf(t) else t))
 
-        def ok_cell(v, cell, p):
+        def ok_cell(v, cell, p, k):
             xv, rv = float(unrat(cell["x"])), unrat(cell["repl"])
             is_x = v == xv
             if fmode:
                 real = real_window(p, 2 if kind == "median" else 1)
-                is_r = abs(Fraction(v) - rv) <= ftol.repl_tol(kind, real) if math.isfinite(v) else False
-                m = ftol.margin(kind, cell, real)
+                if kind == "mean":
+                    ra = None if cell.get("rabs") is None else unrat(cell["rabs"])
+                else:
+                    ra = abs(rv)
+                # 2-D: within two half-windows of a row border AND of a column border (corner pads are medians of medians)
+                corner = len(shape) == 2 and all(not (2 * h <= i < s_ - 2 * h) for i, h, s_ in zip(p, halves, shape))
+                is_r = abs(Fraction(v) - rv) <= ftol.repl_tol(kind, real, ra, a_loc[k], corner) if math.isfinite(v) else False
+                m = ftol.margin(kind, cell, real, a_loc[k], corner, None if m_loc is None else m_loc[k])
+                if fexact(cell):
+                    m = "out" if cell["outlier"] else "in"
                 if m == "near":
                     return is_x or is_r, True
                 return (is_r if m == "out" else is_x), False
@@ -745,6 +1219,8 @@ class C13(Prop):
             feats.add(f"dtype:{dtname}->{impl.get('dtype', 'raises')}")
         if case.get("readonly"):
             feats.add("input:read-only")
+        if not x.dtype.isnative:
+            feats.add("byteorder:non-native")
         if case.get("offset"):
             feats.add("offset")
         if any(s == b for s, b in zip(shape, block)):
@@ -800,10 +1276,13 @@ class C13(Prop):
                 out = impl["out"]
                 n_int = n_repl_int = n_repl_border = n_det = 0
                 cmp_model = have_model and impl["shape"] == rep["shape"]
+                if cmp_model and fmode and kind == "median" and not ftol.pads_exact:
+                    med = np.array([float(unrat(c["repl"])) for c in rep["model"]], dtype=np.float64).reshape(shape)
+                    m_loc = [v * (1 + Fraction(1, 2 ** 40)) for v in FloatTol.local_maxabs(med, halves, 1)]
                 if cmp_model:  # the mechanism at every pixel, also of a large image
                     for k in range(n):
                         pk = tuple(int(i) for i in idx[k])
-                        ok, nr = ok_cell(out[k], rep["model"][k], pk)
+                        ok, nr = ok_cell(out[k], rep["model"][k], pk, k)
                         nears += nr
                         if not ok:
                             bad_model.append(k)
@@ -817,7 +1296,11 @@ class C13(Prop):
                     s = spec_at[k]
                     if s["kind"] == "exact":
                         n_int += 1
-                        ok, nr = ok_cell(out[k], s, p)
+                        if fexact(s):
+                            n_fexact[0] += 1
+                            if s["rhs"] is not None and unrat(s["lhs"]) == unrat(s["rhs"]) != 0:
+                                n_fexact[1] += 1
+                        ok, nr = ok_cell(out[k], s, p, k)
                         n_det += not nr
                         if not cmp_model:  # (only a large image can be without the mechanism)
                             nears += nr
@@ -827,7 +1310,8 @@ class C13(Prop):
                         xv = float(unrat(s["x"]))
                         lo, hi = unrat(s["lo"]), unrat(s["hi"])
                         if fmode:
-                            tol = ftol.repl_tol(kind, False) if kind == "mean" else Fraction(0)
+                            # a replaced border value is a mean of values within [lo, hi]: rounding relative to that range
+                            tol = ftol.repl_tol(kind, False, max(abs(lo), abs(hi)), None) if kind == "mean" else Fraction(0)
                             ok = out[k] == xv or (math.isfinite(out[k]) and lo - tol <= Fraction(out[k]) <= hi + tol)
                         else:
                             lo, hi = float(lo), float(hi)
@@ -847,6 +1331,10 @@ class C13(Prop):
                         feats.add("determined:" + ("all" if n_det == n_int else ">=99%" if frac >= 0.99 else ">=90%" if frac >= 0.9
                                                     else "<90%"))
                         spec["interior_determined"] = [n_det, n_int]
+                if n_fexact[0]:
+                    feats.add("float-exact-decision")
+                if n_fexact[1]:
+                    feats.add("tie:exactly-on-the-boundary")
                 if n_repl_int:
                     feats.add("interior-replaced")
                 if n_repl_border:
@@ -871,10 +1359,105 @@ class C13(Prop):
         impl_view = dict(impl)
         if "out" in impl_view and len(impl_view["out"]) > 64:
             impl_view["out"] = impl_view["out"][:64] + ["..."]
-        nontrivial = feats & {"interior-replaced", "border-replaced", "constant-image", "thr:zero", "thr:inf"}
+        nontrivial = feats & {"interior-replaced", "border-replaced", "constant-image", "thr:zero", "thr:inf", "tie:exactly-on-the-boundary"}
         return outcome(impl_view, model, spec, spec_ok=spec_ok, model_ok=model_ok,
                        undetermined=bool(nears) and spec_ok and model_ok,
                        features=feats if nontrivial else [], note=json.dumps(note) if note else "")
+
+    # ------------------------------------------------------------------ histories: several calls in one process
+    @staticmethod
+    def exact_vals(arr):
+        return [Fraction(int(v)) if arr.dtype.kind in "iu" else Fraction(float(v)) for v in np.asarray(arr).ravel()]
+
+    def evaluate_history(self, case, ctx):
+        """a sequence of calls of the filters in ONE process: on the same array object (edited in place between the
+        calls), on another array of the same shape, on a view of the first array; same or different block / threshold /
+        filter.  Every call is judged, like a single call, against the Lean specification of the contents the array has
+        at the time of that call (the filters are functions of their arguments: nothing may survive a call)."""
+        dtname = case.get("dtype", "float64")
+        dtype = np.dtype(dtname)
+        first = {"stream": "fgen", "shape": case["shape"], "fdata": case["fdata"], "dtype": dtname, "layout": case["layout"],
+                 "byteorder": case.get("byteorder", "native")}
+        _, a_arr, a_base = build(first)
+        _, b_arr, _ = build({**first, "fdata": case["other"], "layout": "C"})
+        outs, feats = [], {"history"}
+        calls = [st for st in case["steps"] if st["op"] == "call"]
+        feats.add("hist:calls-%d" % len(calls))
+        edited = False
+        prev = []  # (target name, block, threshold, kind, edited since) of the earlier calls
+        for st in case["steps"]:
+            if st["op"] == "edit":
+                how = st["how"]
+                if how == "set":  # single pixels: new spikes, spikes removed
+                    for k, h in st["at"]:
+                        a_arr[np.unravel_index(int(k), a_arr.shape)] = dtype.type(float.fromhex(h))
+                elif how == "add":  # the whole buffer shifted in place
+                    a_arr += dtype.type(float.fromhex(st["value"]))
+                elif how == "copy-other":  # a reused acquisition buffer: the next frame copied in
+                    a_arr[...] = b_arr
+                elif how == "region":
+                    sl = tuple(slice(lo, hi) for lo, hi in st["box"])
+                    a_arr[sl] = dtype.type(float.fromhex(st["value"]))
+                else:
+                    raise ValueError("bad edit " + how)
+                edited = True
+                feats.add("hist-edit:" + how)
+                continue
+            on = st["on"]
+            if on == "A":
+                target, tbase = a_arr, a_base
+            elif on == "B":
+                target, tbase = b_arr, None
+            else:  # a view of A (a new array object over the same memory)
+                target = a_arr[tuple(slice(*v) for v in st["view"])]
+                tbase = a_base if a_base is not None else a_arr
+            cur = np.asarray(target)
+            sub = {"stream": "fgen", "kind": st["kind"], "shape": list(cur.shape),
+                   "fdata": [hexf(float(v)) for v in cur.ravel()], "block": st["block"], "block_int": st.get("block_int", False),
+                   "threshold": st["threshold"], "dtype": dtname, "layout": case["layout"] if on != "B" else "C",
+                   "readonly": False, "gen": []}
+            o = self.evaluate_call(sub, ctx, prebuilt=(self.exact_vals(cur), target, tbase))
+            outs.append((sub, o))
+            key = (tuple(st["block"]), st["threshold"], st["kind"])
+            for (pon, pkey, ped) in prev:
+                if pon == on == "A":
+                    feats.add("hist:same-object-again")
+                    if edited:
+                        feats.add("hist:same-object-edited")
+                        feats.add("hist:edited+" + ("same-block" if pkey[0] == key[0] else "other-block"))
+                        feats.add("hist:edited+" + ("same-thr" if pkey[1] == key[1] else "other-thr"))
+                        feats.add("hist:edited+" + ("same-filter" if pkey[2] == key[2] else "other-filter"))
+                    else:
+                        feats.add("hist:unedited+" + ("same-thr" if pkey[1] == key[1] else "other-thr"))
+            if on == "B" and any(pon == "A" for pon, _, _ in prev):
+                feats.add("hist:other-array-same-shape")
+            if on == "view":
+                feats.add("hist:view-of-previous")
+            if on == "A" and any(pon == "B" for pon, _, _ in prev) and any(pon == "A" for pon, _, _ in prev):
+                feats.add("hist:other-array-between")
+            prev.append((on, key, edited))
+            if on == "A":
+                edited = False
+        spec_ok = all(o["spec_ok"] for _, o in outs)
+        model_ok = all(o["model_ok"] for _, o in outs)
+        nontrivial = any(o["features"] for _, o in outs)
+        for _, o in outs:
+            feats.update(f for f in o["features"] if not f.startswith(("determined:", "f64-mechanism")))
+        failing = [(sub, o) for sub, o in outs if not o["spec_ok"]]
+        note = ""
+        if failing and all(self.known(sub, o) == KNOWN_CONST for sub, o in failing):
+            note = failing[0][1]["note"]  # nothing but the known finding: let known() recognise it
+        brief = lambda d: {k: v for k, v in d.items() if k != "out"} if isinstance(d, dict) else d
+        impl = {"steps": [brief(o["impl"]) for _, o in outs],
+                "input_unchanged": all(isinstance(o["impl"], dict) and o["impl"].get("input_unchanged", False) for _, o in outs)}
+        if any(isinstance(o["impl"], dict) and "raises" in o["impl"] for _, o in outs):
+            impl["raises"] = "in-step"
+        bad = next((i for i, (_, o) in enumerate(outs) if not (o["spec_ok"] and o["model_ok"])), None)
+        model = {"steps": [o["model"] for _, o in outs], "first_bad_call": bad}
+        spec = {"steps": [o["spec"] for _, o in outs], "first_bad_call": bad}
+        return outcome(impl, model, spec, spec_ok=spec_ok, model_ok=model_ok,
+                       undetermined=any(o["undetermined"] for _, o in outs) and spec_ok and model_ok,
+                       features=feats if nontrivial else [], note=note)
 
     def known(self, case, out):
         """the one accepted deviation: the MEAN filter with a FINITE threshold returns a CONSTANT image whose window
@@ -896,6 +1479,17 @@ class C13(Prop):
 
     # ------------------------------------------------------------------ shrinking
     def shrink(self, case):
+        if "steps" in case:
+            steps = case["steps"]
+            for i in range(len(steps) - 1, -1, -1):  # a step less (at least one call stays)
+                rest = steps[:i] + steps[i + 1:]
+                if any(st["op"] == "call" for st in rest):
+                    yield {**case, "steps": rest}
+            if case["layout"] != "C":
+                yield {**case, "layout": "C"}
+            if case.get("dtype", "float64") != "float64":
+                yield {**case, "dtype": "float64"}
+            return
         shape, block = case["shape"], case["block"]
         if "stream" in case:
             arr = None if "fconst" in case else np.array(case["fdata"], dtype=object).reshape(shape)
@@ -919,6 +1513,8 @@ class C13(Prop):
                 yield {**case, "dtype": "float64"}
             if case.get("block_int"):
                 yield {**case, "block_int": False}
+            if case.get("byteorder") == "big":
+                yield {**case, "byteorder": "native"}
             return
         if len(case["data"]) > 1024:
             # a large image: every evaluation costs seconds, so cut geometrically (a half or an eighth of an axis from
